@@ -51,7 +51,8 @@ Refresh(s) == IF Renders(s) THEN Draw(s, <<>>) ELSE s
 
 Start(s, refreshAtStart) ==
     IF s.started THEN s
-    ELSE LET s1 == [Emit(s, <<<<"hide", 0>>>>) EXCEPT !.started = TRUE, !.hooks = @ + 1, !.redirected = TRUE]
+    \* a start begins a fresh region: nothing of an earlier session (e.g. one whose stop failed in its last refresh) is erased
+    ELSE LET s1 == [Emit(s, <<<<"hide", 0>>>>) EXCEPT !.started = TRUE, !.hooks = @ + 1, !.redirected = TRUE, !.shape = 0 - 1]
          IN IF ~refreshAtStart THEN s1
             ELSE LET s2 == Draw(s1, <<>>) IN
                  \* a failing first refresh must undo the start (progress.py)
